@@ -946,20 +946,20 @@ def obs_transect(ds):
 
 RUNS = {
     'C01': (obs_index, 'index conversion', gen.FAMILIES + ['ugrid_edges', 'ugrid_edge_faces_only', 'ugrid_nan_node'], None, ('lazy', 'raw', 'view_of_file', 'big_endian', 'narrow_tables')),
-    'C02': (obs_geometry, 'polygons, centres, lookups and spatial index', gen.FAMILIES + ['cf1d_int', 'ugrid_quads1', 'ugrid_square_T', 'ugrid_big_faces', 'cf1d_refused_bounds'], with_data, ('lazy', 'raw', 'view_of_file', 'big_endian', 'transposed_view', 'mixed_precision')),
+    'C02': (obs_geometry, 'polygons, centres, lookups and spatial index', gen.FAMILIES + ['cf1d_int', 'ugrid_quads1', 'ugrid_square_T', 'ugrid_big_faces', 'cf1d_refused_bounds', 'cf2d_river'], with_data, ('lazy', 'raw', 'view_of_file', 'big_endian', 'transposed_view', 'mixed_precision')),
     'C03': (obs_flatten, 'flatten and wind', gen.FAMILIES, with_data, None),
     'C04': (obs_geometry, 'polygons and point lookups', gen.FAMILIES + ['cf1d_desc', 'ugrid_quads1', 'cf2d_river', 'ugrid_big_faces', 'cf1d_refused_bounds', 'ugrid_square_T', 'cf1d_int', 'cf2d_lon_T'], None, ('lazy', 'raw', 'view_of_file', 'big_endian', 'mixed_precision')),
     'C05': (obs_select, 'point selection', gen.FAMILIES + ['ugrid_quads1'], with_data, None),
-    'C06': (obs_geometry, 'polygons, bounds and mask', gen.FAMILIES + ['cf1d_desc', 'cf1d_int', 'cf1d_bounds', 'ugrid_quads1', 'ugrid_big_faces', 'cf1d_refused_bounds', 'ugrid_square_T', 'shoc_standard_thirds'], None, ('lazy', 'raw', 'view_of_file', 'big_endian', 'mixed_precision', 'raw_unsigned')),
-    'C07': (obs_clip_mask, 'clip masks', gen.FAMILIES + ['shoc_standard_thirds', 'cf2d_lon_T', 'cf1d_int'], None, ('lazy', 'raw', 'view_of_file', 'big_endian')),
+    'C06': (obs_geometry, 'polygons, bounds and mask', gen.FAMILIES + ['cf1d_desc', 'cf1d_int', 'cf1d_bounds', 'ugrid_quads1', 'ugrid_big_faces', 'cf1d_refused_bounds', 'ugrid_square_T', 'shoc_standard_thirds', 'cf2d_river'], None, ('lazy', 'raw', 'view_of_file', 'big_endian', 'mixed_precision', 'raw_unsigned')),
+    'C07': (obs_clip_mask, 'clip masks', gen.FAMILIES + ['shoc_standard_thirds', 'cf2d_lon_T', 'cf1d_int', 'cf2d_river'], None, ('lazy', 'raw', 'view_of_file', 'big_endian')),
     'C10': (obs_topology, 'mesh tables and polygons', ['ugrid', 'ugrid_edges', 'ugrid', 'ugrid_square_T', 'ugrid_big_faces', 'ugrid_edge_faces_only'], None, ('lazy', 'raw', 'view_of_file', 'big_endian', 'narrow_tables', 'mixed_precision', 'raw_unsigned')),
     'C11': (obs_detect, 'convention detection', gen.FAMILIES, None, ('lazy', 'raw', 'view_of_file', 'big_endian')),
     'C12': (obs_floor, 'ocean floor', ['cf1d', 'cf2d', 'shoc_standard', 'ugrid'], with_depth, ('lazy', 'raw', 'view_of_file', 'big_endian', 'transposed_view')),
     'C13': (obs_normalize, 'depth normalisation', ['cf1d', 'shoc_simple', 'ugrid'], with_depth, ('lazy', 'raw', 'view_of_file', 'big_endian')),
-    'C14': (obs_triangulate, 'triangulation', gen.FAMILIES + ['ugrid_quads1', 'ugrid_big_faces', 'cf1d_int', 'cf2d_lon_T'], None, ('lazy', 'raw', 'view_of_file', 'big_endian', 'mixed_precision')),
-    'C15': (obs_export, 'geometry export', gen.FAMILIES + ['cf1d_desc', 'cf1d_bounds', 'ugrid_quads1', 'ugrid_big_faces', 'cf1d_int', 'cf2d_lon_T'], None, ('lazy', 'raw', 'view_of_file', 'big_endian', 'mixed_precision')),
+    'C14': (obs_triangulate, 'triangulation', gen.FAMILIES + ['ugrid_quads1', 'ugrid_big_faces', 'cf1d_int', 'cf2d_lon_T', 'cf2d_river'], None, ('lazy', 'raw', 'view_of_file', 'big_endian', 'mixed_precision')),
+    'C15': (obs_export, 'geometry export', gen.FAMILIES + ['cf1d_desc', 'cf1d_bounds', 'ugrid_quads1', 'ugrid_big_faces', 'cf1d_int', 'cf2d_lon_T', 'cf2d_river'], None, ('lazy', 'raw', 'view_of_file', 'big_endian', 'mixed_precision')),
     'C18': (obs_transect, 'transect pieces and prepared data', ['cf1d', 'cf2d', 'ugrid'], with_depth, ('lazy', 'view_of_file', 'big_endian', 'transposed_view')),
-    'C19': (obs_plot, 'polygon collection', gen.FAMILIES + ['ugrid_quads1', 'cf1d_int', 'cf2d_lon_T'], with_data, None),
+    'C19': (obs_plot, 'polygon collection', gen.FAMILIES + ['ugrid_quads1', 'cf1d_int', 'cf2d_lon_T', 'cf2d_river'], with_data, None),
 }
 
 
